@@ -2,6 +2,8 @@ import ScVerif.Base.Line
 import ScVerif.C18.Time
 import ScVerif.C18.Mode
 import ScVerif.C18.Seg64
+import ScVerif.C18.Mode64
+import ScVerif.C18.Shape
 /-! Driver handler for C18: parses one request line, runs the model, prints the canonical answer. -/
 namespace ScVerif.C18
 open ScVerif.Line
@@ -28,8 +30,25 @@ def parsePeriod? (s : String) : Option (Option Period) :=
       pure (some ⟨x, y⟩)
     | _ => none
 
+def showOptTs : Option Ts → String
+  | none => "-"
+  | some t => toString t.secs ++ ":" ++ toString t.nanos
+
+def showPeriod (p : Period) : String := showOptTs p.start ++ "/" ++ showOptTs p.stop
+
 def handleTime (toks : List String) : Option String :=
   match toks with
+  | ["pall", "-", "-"] => pure (showPeriod allTime)
+  | ["pbefore", a, "-"] => do
+    let x ← parseOptTs? a
+    pure (showPeriod (periodBefore x))
+  | ["pafter", a, "-"] => do
+    let x ← parseOptTs? a
+    pure (showPeriod (periodOnOrAfter x))
+  | ["pbetween", a, b] => do
+    let x ← parseOptTs? a
+    let y ← parseOptTs? b
+    pure (showPeriod (periodBetween x y))
   | ["cmp", a, b] => do
     let x ← parseTs? a
     let y ← parseTs? b
@@ -95,6 +114,24 @@ def showMode (m : Mode) : String :=
 def showOptSegs (l : List (Option Seg)) : String :=
   if l.isEmpty then "e" else ",".intercalate (l.map showOptSeg)
 
+def showModeN (m : ModeN) : String :=
+  (match m.start with | none => "-" | some s => toString s) ++ "@" ++ showOptSegs m.segs
+
+/-- A shaped segment `mag/len/shape`, `shape = n` when not set. -/
+def parseSegS? (s : String) : Option SegS :=
+  match s.splitOn "/" with
+  | [m, l, f] => do
+    let seg ← parseSeg? (m ++ "/" ++ l)
+    if f = "n" then pure ⟨seg, none⟩
+    else do
+      let x ← parseInt? f
+      pure ⟨seg, some x⟩
+  | _ => none
+
+def showOptSegS : Option SegS → String
+  | none => "nil"
+  | some s => showSeg s.seg ++ "/" ++ (match s.shape with | none => "n" | some f => toString f)
+
 def showOptMode : Option Mode → String
   | none => "nil"
   | some m => showMode m
@@ -130,6 +167,11 @@ def handleSeg (toks : List String) : Option String :=
     let s ← parseSeg? s
     let r := cutSeg d s
     pure (showOptSeg r.before ++ "|" ++ showOptSeg r.after ++ "|" ++ showBool r.outside)
+  | ["cuts", d, s] => do
+    let d ← parseInt? d
+    let s ← parseSegS? s
+    let r := cutSegS d s
+    pure (showOptSegS r.before ++ "|" ++ showOptSegS r.after ++ "|" ++ showBool r.outside)
   | ["shift", d, l] => do
     let d ← parseInt? d
     let l ← parseSegs? l
@@ -140,39 +182,39 @@ def handleSeg (toks : List String) : Option String :=
   | ["mactive", t, m] => do
     let t ← parseInt? t
     let m ← parseMode? m
-    let r := modeActiveAt t m
+    let r := modeActiveAt64 t m
     pure (toString r.1 ++ "|" ++ toString r.2)
   | ["mmagat", t, m] => do
     let t ← parseInt? t
     let m ← parseMode? m
-    let r := modeMagnitudeAt t m
+    let r := modeMagnitudeAt64 t m
     pure (toString r.1 ++ "|" ++ showBool r.2)
   | ["mmaxafter", t, m] => do
     let t ← parseInt? t
     let m ← parseMode? m
-    pure (toString (modeMaxSegmentAfter t m))
+    pure (toString (modeMaxSegmentAfter64 t m))
   | ["mcut", t, m] => do
     let t ← parseInt? t
     let m ← parseMode? m
-    let r := modeCut t m
+    let r := modeCut64 t m
     pure (showOptMode r.before ++ "|" ++ showOptMode r.after ++ "|" ++ showBool r.outside)
   | ["mshift", d, m] => do
     let d ← parseInt? d
     let m ← parseMode? m
-    pure (showMode (modeShift d m))
+    pure (showModeN (modeShift64 d m))
   | ["mminat", t, ms] => do
     let t ← parseInt? t
     let ms ← parseModes? ms
-    match modeMinAt t ms with
+    match modeMinAt64 t ms with
     | none => pure "nil"
     | some (k, g) =>
       -- the returned mode depends on the map iteration order when several modes share the minimum
       -- (C18_minAt_mode_depends_on_order): the index is part of the answer only when it is unique
-      let n := ms.countP (fun m => (modeMagnitudeAt t m).1 = g)
+      let n := ms.countP (fun m => (modeMagnitudeAt64 t m).1 = g)
       pure (toString g ++ "|" ++ (if n = 1 then toString k else "tie"))
   | ["msum", ms] => do
     let ms ← parseModes? ms
-    pure (showOptMode (modeSum ms))
+    pure (showOptMode (modeSum64 ms))
   | _ => none
 
 def handle (toks : List String) : String :=
